@@ -9,6 +9,7 @@ package main
 import (
 	"encoding/json"
 	"fmt"
+	"os"
 	"sort"
 	"sync"
 
@@ -28,6 +29,10 @@ type regCase struct {
 	Progs  [][]regOp `json:"progs"`
 	Passes []int     `json:"passes"`
 	Sched  []int     `json:"sched"`
+	// CtrYields: the yield points inside counter.value (1, 2, 3) take part too, so that a report
+	// triggered by re-requesting a closed scope can overlap a pass inside one counter (C01); such
+	// runs are checked by the direct predicate only
+	CtrYields bool `json:"ctr_yields,omitempty"`
 }
 
 type regObj struct {
@@ -108,6 +113,8 @@ type regRun struct {
 	note   map[uint64]int64 // goroutine id -> key number of the last visited entry
 	last   []int            // last label per thread
 	sanTab []int64          // key number of the sanitized form of each spelling
+	keep   []tally.Scope    // every scope the API returned stays referenced for the whole run: identities are
+	// addresses, and the address of a dropped scope must not be handed to a new one by the allocator
 }
 
 func (r *regRun) objOf(s tally.Scope, spell int) int {
@@ -119,6 +126,7 @@ func (r *regRun) objOf(s tally.Scope, spell int) int {
 	}
 	i := len(r.out.Objs)
 	r.objIdx[id] = i
+	r.keep = append(r.keep, s)
 	r.out.Objs = append(r.out.Objs, regObj{ID: id, Spell: spell})
 	return i
 }
@@ -225,7 +233,7 @@ func (r *regRun) install() {
 	// only the registry's yield points take part; the yields inside
 	// counter.value, the gauge and the metric getters pass through
 	tally.VerifSetYield(func(p int) {
-		if p == 0 || (p >= 31 && p <= 45) {
+		if p == 0 || (p >= 31 && p <= 45) || (r.c.CtrYields && p >= 1 && p <= 3) {
 			r.ctl.Yield(p)
 		}
 	})
@@ -249,7 +257,11 @@ func (r *regRun) uninstall() {
 // resumes a goroutine that would block (such a pick is a stutter), so that the
 // executed order is fully determined by the schedule. Writers never park while
 // holding the write lock (there is no yield point inside those regions).
-func holdsR(l int) bool { return l == 31 || l == 32 || l == 34 || l == 35 || l == 41 || l == 44 }
+func holdsR(l int) bool {
+	// 1, 2, 3 (inside counter.value) are only parked at in runs with CtrYields: the goroutine is
+	// inside a report and holds the shard's lock
+	return l == 31 || l == 32 || l == 34 || l == 35 || l == 41 || l == 44 || (l >= 1 && l <= 3)
+}
 func wantsW(l int) bool { return l == 33 || l == 45 }
 
 func (r *regRun) enabled(i int) bool {
@@ -277,6 +289,13 @@ func (r *regRun) step(i int) bool {
 	}
 	l := r.ctl.Step(i)
 	if l == Stutter {
+		return false
+	}
+	if l == Blocked && r.c.CtrYields {
+		// a goroutine parked inside counter.value may hold the shard's write lock (report of a closed
+		// scope found under the sanitized key) or the scope's metric lock: the pick is a stutter, the
+		// goroutine goes on by itself once the holder has moved
+		r.out.Blocked++
 		return false
 	}
 	if l == Blocked {
@@ -419,6 +438,10 @@ func regReplay(ctx *Ctx, pred string) {
 		fatal(err)
 	}
 	out, _ := c07Exec(&rc, true)
+	if os.Getenv("VH_DEBUG") != "" {
+		b, _ := json.Marshal(out)
+		fmt.Fprintln(os.Stderr, string(b))
+	}
 	ctx.Case(rc, "", "registry-cycles-under-schedule", "")
 	if fail := regPredicate(&out); fail != "" {
 		ctx.Fail(pred, "registry cycles: "+fail, rc, out)
